@@ -84,6 +84,17 @@ pub fn collect_binders_block(b: &syn::Block, s: &mut BTreeSet<String>) {
     }
     All(s).visit_block(b);
 }
+/// the binders a function body introduces, in source order, closures excluded (`$B0`, `$B1`, .. in loop and proof sections of the
+/// contracts stand for them, so that renaming a local does not detach an invariant that has to mention it)
+pub fn ordered_binders(b: &syn::Block) -> Vec<String> {
+    struct All(Vec<String>);
+    impl<'a> Visit<'a> for All {
+        fn visit_pat_ident(&mut self, p: &'a syn::PatIdent) { let n = p.ident.to_string(); if !n.chars().next().map(|c| c.is_uppercase()).unwrap_or(false) && !self.0.contains(&n) { self.0.push(n); } if let Some((_, sub)) = &p.subpat { self.visit_pat(sub); } }
+        fn visit_expr_closure(&mut self, _: &'a syn::ExprClosure) {}
+        fn visit_expr_async(&mut self, _: &'a syn::ExprAsync) {}
+    }
+    let mut a = All(vec![]); a.visit_block(b); a.0
+}
 pub fn is_dropped_macro(m: &syn::Macro) -> bool {
     let p = nospace(&m.path.to_token_stream().to_string());
     p.starts_with("log::") || p == "eprintln" || p == "println" || p == "debug_assert" || p == "debug_assert_eq" || p == "dbg"
@@ -743,7 +754,13 @@ impl<'c> VisitMut for Rw<'c> {
         if let Expr::MethodCall(m) = e {
             if m.method == "retain" && m.args.len() == 1 {
                 let a = nospace(&m.args[0].to_token_stream().to_string());
-                if a.starts_with("|_,") && a.ends_with(".upgrade().is_some()") { let recv = &m.receiver; self.cx.fire("T3"); *e = parse_quote!(#recv.retain_upgradable()); }
+                // `|<unused key>, v| v.upgrade().is_some()`: the predicate looks at the value only, and only at whether it upgrades
+                let shape = { let mut ok = false; if let Expr::Closure(cl) = &m.args[0] { if cl.inputs.len() == 2 {
+                        let k = nospace(&cl.inputs[0].to_token_stream().to_string()); let v = nospace(&cl.inputs[1].to_token_stream().to_string());
+                        let body = nospace(&cl.body.to_token_stream().to_string());
+                        ok = k.starts_with('_') && body == format!("{}.upgrade().is_some()", v);
+                    } } ok };
+                if shape || (a.starts_with("|_,") && a.ends_with(".upgrade().is_some()")) { let recv = &m.receiver; self.cx.fire("T3"); *e = parse_quote!(#recv.retain_upgradable()); }
             }
         }
         // T3: `for x in &v` -> `for x in v.iter()`
